@@ -79,7 +79,7 @@ func main() {
 			mode = "all"
 		}
 		stat[fmt.Sprintf("depth<=8:%v", d <= 8)]++
-		fmt.Printf("tree\t%d\t%s\t%s\t=>\t%s\n", d, mode, strings.Join(ops, ";"), strings.Join(outs, ";"))
+		fmt.Fprintf(gen.Out, "tree\t%d\t%s\t%s\t=>\t%s\n", d, mode, strings.Join(ops, ";"), strings.Join(outs, ";"))
 	}
 	fmt.Fprintf(os.Stderr, "{")
 	first := true
